@@ -183,7 +183,7 @@ func runCase(c sigCase) pbt.Result {
 	} else {
 		err = ad.SignWithExtendedProviders(signer.Priv, func(id string) (ic.PrivKey, error) {
 			for _, e := range a.EPs {
-				if keys[e.IDKey].ID.String() == id {
+				if adgen.IDString(keys[e.IDKey].ID, a.IDForm) == id {
 					return keys[e.SignKey].Priv, nil
 				}
 			}
@@ -216,7 +216,7 @@ func runCase(c sigCase) pbt.Result {
 		}
 		ad.Entries = nc
 	case "provider":
-		o := keys[m.OtherKey].ID.String()
+		o := adgen.IDString(keys[m.OtherKey].ID, a.IDForm)
 		if o == ad.Provider {
 			return pbt.Result{Skip: true}
 		}
@@ -233,7 +233,7 @@ func runCase(c sigCase) pbt.Result {
 	case "override":
 		ad.ExtendedProvider.Override = !ad.ExtendedProvider.Override
 	case "ep-id":
-		o := keys[m.OtherKey].ID.String()
+		o := adgen.IDString(keys[m.OtherKey].ID, a.IDForm)
 		if o == ad.ExtendedProvider.Providers[m.Index].ID {
 			return pbt.Result{Skip: true}
 		}
@@ -260,7 +260,7 @@ func runCase(c sigCase) pbt.Result {
 		junk, _ := record.Seal(&rawRec{domain: "indexer", codec: []byte("/indexer/ingest/extendedProviderSignature"), payload: []byte("unrelated payload")}, other.Priv)
 		jb, _ := junk.Marshal()
 		ep := &schema.ExtendedProvider{Override: m.Bit%2 == 0}
-		ep.Providers = append(ep.Providers, schema.Provider{ID: other.ID.String(), Addresses: []string{"/ip4/1.1.1.1/tcp/1"}, Signature: jb})
+		ep.Providers = append(ep.Providers, schema.Provider{ID: adgen.IDString(other.ID, a.IDForm), Addresses: []string{"/ip4/1.1.1.1/tcp/1"}, Signature: jb})
 		if m.Pos%2 == 0 {
 			ep.Providers = append(ep.Providers, schema.Provider{ID: ad.Provider, Signature: jb})
 		}
